@@ -568,12 +568,15 @@ func resolverHist(r *rng, n int, certDir string) error {
 				buf := make([]byte, 65535)
 				ctx, cancel := context.WithTimeout(context.Background(), 2*time.Second)
 				if !useDNS {
-					pi := r.intn(3)
+					pi := r.intn(4)
 					if forceProf >= 0 {
 						pi = forceProf
 					}
 					prev = append(prev, prevQ{name, typ, class, pi})
 					prof := fmt.Sprintf("p%d", pi)
+					if pi == 3 {
+						prof = "" // no profile configured / no conditional profile matched
+					}
 					w.profile.Store(prof)
 					url := "https://doh.test/" + prof
 					body := respFor(r, payload, "doh/"+prof+"/"+q.Name)
